@@ -19,7 +19,8 @@ Instrumentation, installed for the duration of a case and restored in ``finally`
 
 The actor executes a generated program (<=15 ops over 3 virtual fds): add/remove reader/writer, make an
 fd readable/writable, clear it, remove+close an fd (``remove_close``: unregister, then close — the
-order the class documents), run one pending loop callback, close.  The scripted ``select`` starts at its
+order the class documents), run one pending loop callback, ``park`` (the loop is idle: no callback runs while the selector threads go
+on until none can move), close.  The scripted ``select`` starts at its
 own point ``select_enter``; if by then one of the fds it was handed has been closed it raises
 ``OSError(EBADF)`` like the real one, which drives ``_run_select``'s EBADF recovery branch (re-poll the
 waker, report a waker-only result so the loop republishes the fd set).  One third of the programs are
@@ -32,6 +33,16 @@ buffer fills up (label ``waker_buffer_full``).  ``_waker_w`` is wrapped so that 
 thread is the only one that drains, so the ordinary no-runnable-thread rule reports it as a deadlock
 instead of the harness hanging in the kernel.  Handlers consume the readiness
 they are dispatched for (like reading the data) and optionally unregister themselves (one-shot).
+Two instances (two cases in nine, half of them with both threads started and parked first): two ``SelectorThread`` objects are alive at once, with separate fake
+loops and fd sets; their programs are interleaved on the one loop thread, each is shut down while the
+other is still alive or after the common completion, in either order; all clauses are evaluated per
+instance.  Hand-off state that the class declares at *class level* (created at import time, outside the
+``threading`` shim) is given the same instrumentation with the same sharing structure: a real
+``threading.Condition`` found in ``vars(SelectorThread)`` is replaced for the case by one scheduler
+condition shared by all instances (restored afterwards), so a state wrongly shared between instances
+shows up behaviourally (the wrong thread is woken: lost events / join deadlock) instead of escaping the
+scheduler.  If the condition in use cannot be instrumented at all the Probe reports
+``C40.handoff_state_not_instrumented`` rather than failing.
 Handlers may also unregister *another* registration from inside the dispatch (``cross`` rules: another
 fd's reader/writer, or their own fd's other direction); one case in eight is aimed at the situation where
 the removed registration's event sits later in the very same select batch (two readers removing each
@@ -94,6 +105,10 @@ Sensitivity (quick tier, seed 1, one mutant at a time on a scratch copy; all fou
     it raise KeyError; ``_start_select`` is skipped and all later readiness is lost) ... caught
     (C40.exception_in_loop_callback KeyError, followed by C40.lost_event; label
     ``handler_removed_other_registration``)
+  * hand-off state (``_select_cond`` = ``threading.Condition()``, ``_select_args``, ``_closing_selector``,
+    ``_thread``) declared at class level: one condition shared by all instances, ``notify()`` wakes the
+    oldest waiter, i.e. possibly the other instance's thread ............... caught (C40.deadlock in close()'s
+    join / C40.lost_event, by the two-instance cases; label ``instances_share_one_condition``)
   When ``sched`` has found a violation the ``smoke`` part is skipped (with these mutants it would hang
   until its cap and turn the run into exit 2 = inconclusive).
 """
@@ -122,7 +137,8 @@ RULE = (
     "generated schedule of <=80 binary choices (then stay-on-thread or always-switch) x "
     "shutdown path (close / atexit hook / asyncgen aclose; 1/7 of the cases close before the loop's first "
     "iteration; in half of the cases the wrapped loop keeps running after the shutdown) x one-shot "
-    "handlers and handlers that unregister other registrations of the same batch; the real SelectorThread "
+    "handlers and handlers that unregister other registrations of the same batch; 2/9 of the cases run TWO "
+    "instances at once with interleaved programs; the real SelectorThread "
     "code runs on two real threads serialised by a baton scheduler; non-trivial = the schedule switches "
     "threads >=3 times between a registration change and the next select, or the shutdown lands while "
     "the selector thread is inside select or waiting on the condition; distinct = SHA-1 of the case"
@@ -235,10 +251,14 @@ class WakerSendProxy:
 
 
 class Env:
-    def __init__(self, sched):
+    """Harness-side state of ONE SelectorThread instance (its virtual fds, readiness flags, handlers)."""
+
+    def __init__(self, sched, fds=None, problems=None, labels=None, idx=0):
         self.sched = sched
-        self.readable = {fd: False for fd in FDS}
-        self.writable = {fd: False for fd in FDS}
+        self.idx = idx
+        self.fds = list(fds or FDS)
+        self.readable = {fd: False for fd in self.fds}
+        self.writable = {fd: False for fd in self.fds}
         self.oneshot = set()
         self.cross = []  # (src fd idx, "r"|"w", target fd idx, "r"|"w")
         self.closed = set()  # virtual fds closed by the actor (after removing them)
@@ -248,13 +268,13 @@ class Env:
         self.max_select_depth = 0
         self.selects = 0
         self.dispatches = []
-        self.problems = []
+        self.problems = [] if problems is None else problems  # shared by all instances of a case
         self.probe = None
         self.last_change_switches = None
-        self.labels = set()
+        self.labels = set() if labels is None else labels
 
     def problem(self, clause, detail):
-        self.problems.append((clause, detail))
+        self.problems.append((clause, dict(detail, instance=self.idx)))
 
     # ---- scripted select (runs on whichever thread calls select.select in the module)
     def _poll(self, r, w):
@@ -320,8 +340,8 @@ class Env:
         """A handler that unregisters ANOTHER registration (another fd's, or its own fd's other
         direction) — possibly one whose event sits later in the very batch being dispatched."""
         for src, src_kind, tgt, tgt_kind in self.cross:
-            if FDS[src] == fd and src_kind == kind:
-                removed = self.probe.remove_reader(FDS[tgt]) if tgt_kind == "r" else self.probe.remove_writer(FDS[tgt])
+            if self.fds[src] == fd and src_kind == kind:
+                removed = self.probe.remove_reader(self.fds[tgt]) if tgt_kind == "r" else self.probe.remove_writer(self.fds[tgt])
                 if removed:
                     self.labels.add("handler_removed_other_registration")
 
@@ -341,7 +361,12 @@ class Probe(SelectorThread):
         env = self.__dict__.get("_env")
         if env is None or self.__dict__.get("_thread") is None:
             return
-        if not self._select_cond.held_by_me():
+        held = getattr(self._select_cond, "held_by_me", None)
+        if held is None:
+            # the condition in use is not one the harness could instrument (neither created through
+            # threading.Condition() at construction nor a class attribute): report, never crash
+            env.problem("C40.handoff_state_not_instrumented", {"field": name, "condition": repr(self._select_cond)[:80]})
+        elif not held():
             env.problem("C40.unsynchronised_access", {"field": name, "how": how, "thread": env.sched.name_of()})
 
     @property
@@ -365,230 +390,334 @@ class Probe(SelectorThread):
         self.__dict__["_cs"] = v
 
 
-def selector_state(sched):
-    others = sched.live_others()
-    if not others:
+def thread_state(sched, t):
+    """Where instance thread `t` is parked ('none' = not created or finished)."""
+    if t is None or t.ident is None:
         return "none"
-    return others[0]["label"] or "running"
+    st = sched.st.get(t.ident)
+    if st is None or st["status"] == "finished":
+        return "none"
+    return st["label"] or "running"
+
+
+def _drive(coro, what):
+    try:
+        coro.send(None)
+    except StopIteration:
+        return
+    raise HarnessError("%s awaited something" % what)
+
+
+class Unit:
+    """One SelectorThread instance under test together with its fake loop and harness-side state."""
+
+    def __init__(self, idx, sched, spec, problems, labels, n_units):
+        self.idx, self.sched, self.spec, self.labels, self.n_units = idx, sched, spec, labels, n_units
+        self.env = Env(sched, fds=[100 + 10 * idx + k for k in range(3)], problems=problems, labels=labels, idx=idx)
+        self.env.oneshot = {self.env.fds[i] for i in spec["oneshot"]}
+        self.env.cross = [tuple(r) for r in spec.get("cross", [])]
+        self.loop = FakeLoop(sched, self.env)
+        self.probe = None
+        self.shut = False
+        self.state_at_shutdown = None
+
+    def construct(self):
+        self.probe = Probe(self.loop)
+        self.probe.__dict__["_env"] = self.env
+        self.probe._waker_w = WakerSendProxy(self.probe._waker_w, self.sched, self.env)
+        self.env.probe = self.probe
+
+    def thread(self):
+        return self.probe.__dict__.get("_thread") if self.probe is not None else None
+
+    def do_op(self, op):
+        env, probe, labels = self.env, self.probe, self.labels
+        kind = op[0]
+        if kind == "run":
+            self.loop.run_one()
+            return
+        if kind == "park":
+            # the loop thread is busy elsewhere / the loop is not running: no callback runs, the selector
+            # threads go on until none of them can move (typically: parked waiting for the next snapshot)
+            self.sched.fair = True
+            try:
+                for _ in range(400):
+                    if not self.sched.others_ready():
+                        break
+                    self.sched.point("idle")
+            finally:
+                self.sched.fair = False
+            labels.add("park")
+            return
+        fd = env.fds[op[1]]
+        if kind in ("add_reader", "add_writer", "burst") and fd in env.closed:
+            env.closed.discard(fd)  # the number is reused by a new descriptor
+            env.readable[fd] = env.writable[fd] = False
+        if fd in env.closed and kind in ("ready", "writable", "clear"):
+            return  # no such descriptor
+        if kind == "add_reader":
+            probe.add_reader(fd, env.on_read, fd)
+        elif kind == "add_writer":
+            probe.add_writer(fd, env.on_write, fd)
+        elif kind == "burst":
+            # many registration changes inside ONE loop callback: the loop thread never gets to drain
+            # the waker in between, so its socket buffer fills up (~280 bytes)
+            for _ in range(op[2]):
+                probe.add_reader(fd, env.on_read, fd)
+            labels.add("burst")
+        elif kind == "remove_close":
+            # the documented order: unregister, then close (never close a registered fd)
+            probe.remove_reader(fd)
+            probe.remove_writer(fd)
+            env.closed.add(fd)
+            env.readable[fd] = env.writable[fd] = False
+            labels.add("remove_close")
+        elif kind == "remove_reader":
+            probe.remove_reader(fd)
+        elif kind == "remove_writer":
+            probe.remove_writer(fd)
+        elif kind == "ready":
+            env.readable[fd] = True
+        elif kind == "writable":
+            env.writable[fd] = True
+        elif kind == "clear":
+            env.readable[fd] = False
+            env.writable[fd] = False
+        if kind.startswith(("add_", "remove_", "burst")):
+            env.last_change_switches = self.sched.switches
+
+    def quiescence_clause(self):
+        env, probe, labels = self.env, self.probe, self.labels
+        lost = [("r", fd) for fd in probe._readers if isinstance(fd, int) and env.readable[fd]]
+        lost += [("w", fd) for fd in probe._writers if isinstance(fd, int) and env.writable[fd]]
+        if lost:
+            env.problem("C40.lost_event", {"registered_and_ready_at_quiescence": lost,
+                                           "selector_thread_at": thread_state(self.sched, self.thread()),
+                                           "dispatches": env.dispatches})
+        labels.add("quiescence_checked")
+        if env.dispatches:
+            labels.add("dispatched")
+        if len(env.dispatches) >= 2:
+            labels.add("dispatched_ge2")
+        if env.selects >= 3:
+            labels.add("selects_ge3")
+        if env.dispatches_after_ebadf:
+            labels.add("dispatched_after_ebadf_recovery")
+
+    def shutdown(self, settle_all, others_alive):
+        """The instance's shutdown path + everything that must hold afterwards."""
+        env, probe, labels, sched = self.env, self.probe, self.labels, self.sched
+        self.shut = True
+        self.state_at_shutdown = thread_state(sched, self.thread())
+        if others_alive:
+            labels.add("shutdown_while_other_instance_alive")
+        how = self.spec["shutdown"]
+        started = self.thread() is not None
+        if how == "aclose" and not started:
+            how = "close"
+        if how == "atexit" and self.n_units > 1:
+            how = "close"  # the atexit hook stops every instance at once; keep the instances independent
+        labels.add("shutdown_" + how)
+        if how == "close":
+            probe.close()
+        elif how == "atexit":
+            pa._atexit_callback()
+            if pa._selector_loops:
+                env.problem("C40.atexit_left_loops", {})
+            if started and not self.thread().finished:
+                env.problem("C40.thread_alive_after_atexit", {})
+            probe.close()
+        else:
+            _drive(probe._thread_manager_handle.aclose(), "aclose")
+        if self.spec.get("run_loop_after_close"):
+            # The SelectorThread was closed but the wrapped loop lives on (the class "can be attached to a
+            # running asyncio loop", and its thread is created lazily by a call_soon'ed task): run
+            # everything that is still queued — possibly the thread start itself — until nothing can move,
+            # then shut the loop down the way asyncio does (shutdown_asyncgens -> aclose -> close(), a
+            # no-op by now).
+            labels.add("loop_run_after_close")
+            had_thread = self.thread() is not None
+            settle_all("loop after close")
+            if not had_thread and self.thread() is not None:
+                labels.add("thread_started_after_close")
+            _drive(probe._thread_manager_handle.aclose(), "aclose")
+        self.loop.closed = True
+        self.loop.queue.clear()
+        t = self.thread()
+        if t is not None:
+            if not t.finished:
+                # nothing is runnable any more and the thread has not returned: it is parked for ever
+                env.problem("C40.thread_alive_after_close", {"state": thread_state(sched, t),
+                                                             "thread_started_after_close": "thread_started_after_close" in labels})
+            else:
+                real_threading.Thread.join(t, 60.0)
+                if t.is_alive():
+                    raise HarnessError("finished participant thread did not exit")
+        if env.select_depth:
+            env.problem("C40.select_in_progress_after_close", {})
+        if probe._waker_r.fileno() != -1 or probe._waker_w.fileno() != -1:
+            env.problem("C40.waker_not_closed", {})
+        if probe in pa._selector_loops:
+            env.problem("C40.still_in_atexit_set", {})
+        before = (len(sched.trace), dict(probe._readers), dict(probe._writers), probe._closed)
+        probe.close()
+        after = (len(sched.trace), dict(probe._readers), dict(probe._writers), probe._closed)
+        if before != after or not probe._closed:
+            env.problem("C40.second_close_not_noop", {"before": repr(before), "after": repr(after)})
+
+    def cleanup(self):
+        probe = self.probe
+        if probe is None:
+            return
+        t = self.thread()
+        if t is not None:
+            self.sched.drain_threads([t])
+        probe.__dict__["_env"] = None
+        probe._closed = True
+        for s in (probe.__dict__.get("_waker_r"), probe.__dict__.get("_waker_w")):
+            if s is not None:
+                s.close()
+        h = probe.__dict__.get("_thread_manager_handle")
+        if h is not None:
+            try:
+                h.aclose().send(None)
+            except (StopIteration, RuntimeError):
+                pass
+
+
+_REAL_CONDITION_TYPE = type(real_threading.Condition())
 
 
 def run_sched_case(ctx, case):
     sched = Sched(case["schedule"], tail_policy=case["tail_policy"])
-    env = Env(sched)
-    env.oneshot = {FDS[i] for i in case["oneshot"]}
-    env.cross = [tuple(r) for r in case.get("cross", [])]
+    problems, labels = [], set()
+    specs = [{k: case.get(k) for k in ("program", "shutdown", "oneshot", "cross", "run_loop_after_close", "start_first")}]
+    specs[0]["cross"] = specs[0]["cross"] or []
+    if case.get("second"):
+        specs.append(dict(case["second"]))
+        labels.add("two_instances")
+    units = [Unit(i, sched, spec, problems, labels, len(specs)) for i, spec in enumerate(specs)]
+
+    def dispatch_select(r, w, x, timeout=None):
+        """select.select of the module: route to the instance whose selector thread is calling."""
+        cur = real_threading.current_thread()
+        probe = getattr(getattr(cur, "_target", None), "__self__", None)
+        env = probe.__dict__.get("_env") if isinstance(probe, SelectorThread) else None
+        if env is None:
+            if sched.is_actor():
+                problems.append(("C40.select_on_loop_thread", {}))
+            raise HarnessError("select.select called by a thread that belongs to no instance under test")
+        return env.fake_select(r, w, x, timeout)
+
     saved = (pa.threading, pa.select, pa._selector_loops)
     pa.threading = Shim(real_threading, Thread=sched.Thread, Condition=sched.Condition)
-    pa.select = Shim(real_select, select=env.fake_select)
+    pa.select = Shim(real_select, select=dispatch_select)
     pa._selector_loops = set()
-    probe = None
-    loop = FakeLoop(sched, env)
-    labels = env.labels
-    state_at_shutdown = None
+    # Hand-off state declared at CLASS level is created at import time, outside the shim: give it the same
+    # instrumentation with the same sharing structure (one scheduler condition shared by all instances).
+    class_level = {name: v for name, v in vars(SelectorThread).items() if isinstance(v, _REAL_CONDITION_TYPE)}
+    for name in class_level:
+        setattr(SelectorThread, name, sched.Condition())
+        labels.add("class_level_condition_instrumented")
     phase = "construct"
+
+    def settle_all(what):
+        """Fair completion: pending callbacks of every live loop and the selector threads alternate until
+        nothing can move."""
+        sched.fair = True
+        try:
+            for _ in range(6000):
+                if any(u.loop.run_one() for u in units if not u.loop.closed):
+                    continue
+                sched.point("idle")
+                if not any(u.loop.queue for u in units if not u.loop.closed) and not sched.others_ready():
+                    return
+            raise HarnessError("%s did not reach quiescence" % what)
+        finally:
+            sched.fair = False
+
     try:
         try:
-            probe = Probe(loop)
-            probe.__dict__["_env"] = env
-            probe._waker_w = WakerSendProxy(probe._waker_w, sched, env)
-            env.probe = probe
+            for u in units:
+                u.construct()  # all instances are alive at once
+            if len(units) == 2 and units[0].probe._select_cond is units[1].probe._select_cond:
+                labels.add("instances_share_one_condition")
             phase = "program"
-            closed_in_program = False
-            if case["start_first"]:
-                loop.run_one()  # "when the loop starts": the selector thread exists before the program
-            for op in case["program"]:
+            for u in units:
+                if u.spec["start_first"]:
+                    u.loop.run_one()  # "when the loop starts": the selector thread exists before the program
+            its = [iter(u.spec["program"]) for u in units]
+            active = [True] * len(units)
+            choices = list(case.get("interleave") or [])
+            turn = 0
+            while any(active):
+                pick = (choices.pop(0) if choices else turn) % len(units)
+                turn += 1
+                if not active[pick]:
+                    pick = active.index(True)
+                u = units[pick]
+                op = next(its[pick], None)
+                if op is None:
+                    active[pick] = False
+                    continue
                 sched.point("op")
-                kind = op[0]
-                if kind == "run":
-                    loop.run_one()
-                elif kind == "close":
-                    closed_in_program = True
-                    break
+                if op[0] == "close":
+                    active[pick] = False
+                    phase = "shutdown"
+                    u.shutdown(settle_all, others_alive=any(not v.shut for v in units if v is not u))
+                    phase = "program"
                 else:
-                    fd = FDS[op[1]]
-                    if kind in ("add_reader", "add_writer", "burst") and fd in env.closed:
-                        # the number is reused by a new descriptor
-                        env.closed.discard(fd)
-                        env.readable[fd] = env.writable[fd] = False
-                    if fd in env.closed and kind in ("ready", "writable", "clear"):
-                        continue  # no such descriptor
-                    if kind == "add_reader":
-                        probe.add_reader(fd, env.on_read, fd)
-                    elif kind == "add_writer":
-                        probe.add_writer(fd, env.on_write, fd)
-                    elif kind == "burst":
-                        # many registration changes inside ONE loop callback: the loop thread never gets
-                        # to drain the waker in between, so its socket buffer fills up (~280 bytes)
-                        for _ in range(op[2]):
-                            probe.add_reader(fd, env.on_read, fd)
-                        labels.add("burst")
-                    elif kind == "remove_close":
-                        # the documented order: unregister, then close (never close a registered fd)
-                        probe.remove_reader(fd)
-                        probe.remove_writer(fd)
-                        env.closed.add(fd)
-                        env.readable[fd] = env.writable[fd] = False
-                        labels.add("remove_close")
-                    elif kind == "remove_reader":
-                        probe.remove_reader(fd)
-                    elif kind == "remove_writer":
-                        probe.remove_writer(fd)
-                    elif kind == "ready":
-                        env.readable[fd] = True
-                    elif kind == "writable":
-                        env.writable[fd] = True
-                    elif kind == "clear":
-                        env.readable[fd] = False
-                        env.writable[fd] = False
-                    if kind.startswith(("add_", "remove_", "burst")):
-                        env.last_change_switches = sched.switches
-            if not closed_in_program:
-                # fair completion, then the no-lost-event clause
+                    u.do_op(op)
+            remaining = [u for u in units if not u.shut]
+            if remaining:
+                # fair completion, then the no-lost-event clause for every instance still open
                 phase = "completion"
-                sched.fair = True
-                for _ in range(4000):
-                    if loop.run_one():
-                        continue
-                    sched.point("idle")
-                    if not loop.queue and not sched.others_ready():
-                        break
-                else:
-                    raise HarnessError("fair completion did not reach quiescence")
-                sched.fair = False
-                lost = [("r", fd) for fd in probe._readers if isinstance(fd, int) and env.readable[fd]]
-                lost += [("w", fd) for fd in probe._writers if isinstance(fd, int) and env.writable[fd]]
-                if lost:
-                    env.problem("C40.lost_event", {"registered_and_ready_at_quiescence": lost,
-                                                   "selector_thread_at": selector_state(sched),
-                                                   "dispatches": env.dispatches})
-                labels.add("quiescence_checked")
-                if env.dispatches:
-                    labels.add("dispatched")
-                if len(env.dispatches) >= 2:
-                    labels.add("dispatched_ge2")
-                if env.selects >= 3:
-                    labels.add("selects_ge3")
-                if env.dispatches_after_ebadf:
-                    labels.add("dispatched_after_ebadf_recovery")
-            # ---- shutdown
-            phase = "shutdown"
-            state_at_shutdown = selector_state(sched)
-            how = case["shutdown"]
-            started = probe.__dict__.get("_thread") is not None
-            if how == "aclose" and not started:
-                how = "close"
-            labels.add("shutdown_" + how)
-            if how == "close":
-                probe.close()
-            elif how == "atexit":
-                pa._atexit_callback()
-                if pa._selector_loops:
-                    env.problem("C40.atexit_left_loops", {})
-                if started and not probe._thread.finished:
-                    env.problem("C40.thread_alive_after_atexit", {})
-                probe.close()
-            else:
-                try:
-                    probe._thread_manager_handle.aclose().send(None)
-                except StopIteration:
-                    pass
-                else:
-                    raise HarnessError("aclose awaited something")
-            if case.get("run_loop_after_close"):
-                # The SelectorThread was closed but the wrapped loop lives on (the class "can be attached
-                # to a running asyncio loop", and its thread is created lazily by a call_soon'ed task): run
-                # everything that is still queued — possibly the thread start itself — until nothing can
-                # move, then shut the loop down the way asyncio does (shutdown_asyncgens -> aclose of the
-                # thread manager -> close(), a no-op by now).
-                phase = "loop_runs_after_close"
-                labels.add("loop_run_after_close")
-                had_thread = probe.__dict__.get("_thread") is not None
-                sched.fair = True
-                for _ in range(4000):
-                    if loop.run_one():
-                        continue
-                    sched.point("idle")
-                    if not loop.queue and not sched.others_ready():
-                        break
-                else:
-                    raise HarnessError("loop after close did not reach quiescence")
-                sched.fair = False
-                if not had_thread and probe.__dict__.get("_thread") is not None:
-                    labels.add("thread_started_after_close")
-                try:
-                    probe._thread_manager_handle.aclose().send(None)
-                except StopIteration:
-                    pass
-                else:
-                    raise HarnessError("aclose awaited something")
-            loop.closed = True
-            loop.queue.clear()
+                settle_all("fair completion")
+                for u in remaining:
+                    u.quiescence_clause()
+                phase = "shutdown"
+                if case.get("close_order") == "reversed":
+                    remaining.reverse()
+                for u in remaining:
+                    u.shutdown(settle_all, others_alive=any(not v.shut for v in units if v is not u))
             phase = "after_shutdown"
-            t = probe.__dict__.get("_thread")
-            if t is not None:
-                if not t.finished:
-                    # nothing is runnable any more and the thread has not returned: it is parked for ever
-                    env.problem("C40.thread_alive_after_close", {"state": selector_state(sched), "phase": phase,
-                                                                 "thread_started_after_close": "thread_started_after_close" in labels})
-                else:
-                    real_threading.Thread.join(t, 60.0)
-                    if t.is_alive():
-                        raise HarnessError("finished participant thread did not exit")
-            if env.select_depth:
-                env.problem("C40.select_in_progress_after_close", {})
-            if probe._waker_r.fileno() != -1 or probe._waker_w.fileno() != -1:
-                env.problem("C40.waker_not_closed", {})
-            if probe in pa._selector_loops:
-                env.problem("C40.still_in_atexit_set", {})
-            before = (len(sched.trace), dict(probe._readers), dict(probe._writers), probe._closed)
-            probe.close()
-            after = (len(sched.trace), dict(probe._readers), dict(probe._writers), probe._closed)
-            if before != after or not probe._closed:
-                env.problem("C40.second_close_not_noop", {"before": repr(before), "after": repr(after)})
         except Abort:
             if sched.deadlock is not None:
-                env.problem("C40.deadlock", {"phase": phase, "threads": sched.deadlock, "tail": sched.trace[-12:]})
+                problems.append(("C40.deadlock", {"phase": phase, "threads": sched.deadlock, "tail": sched.trace[-12:]}))
             elif not sched.thread_errors:
                 raise HarnessError("scheduler aborted without a deadlock")
         if sched.thread_errors:
-            env.problem("C40.selector_thread_crashed", {"errors": sched.thread_errors, "phase": phase})
+            problems.append(("C40.selector_thread_crashed", {"errors": sched.thread_errors, "phase": phase}))
     finally:
         # nothing may outlive the case
         sched.abort()
-        if probe is not None:
-            t = probe.__dict__.get("_thread")
-            if t is not None:
-                sched.drain_threads([t])
-            probe.__dict__["_env"] = None
-            probe._closed = True
-            for s in (probe.__dict__.get("_waker_r"), probe.__dict__.get("_waker_w")):
-                if s is not None:
-                    s.close()
-            h = probe.__dict__.get("_thread_manager_handle")
-            if h is not None:
-                try:
-                    h.aclose().send(None)
-                except (StopIteration, RuntimeError):
-                    pass
-        pa.threading, pa.select, pa._selector_loops = saved
+        try:
+            for u in units:
+                u.cleanup()
+        finally:
+            for name, v in class_level.items():
+                setattr(SelectorThread, name, v)
+            pa.threading, pa.select, pa._selector_loops = saved
 
-    if env.max_select_depth > 1 and not any(c == "C40.concurrent_selects" for c, _ in env.problems):
-        env.problem("C40.concurrent_selects", {"depth": env.max_select_depth})
-    if state_at_shutdown in ("select", "select_enter"):
-        labels.add("shutdown_while_in_select")
-    elif state_at_shutdown == "cond_wait":
-        labels.add("shutdown_while_cond_wait")
-    elif state_at_shutdown == "none":
-        labels.add("shutdown_before_thread_start")
-    elif state_at_shutdown is not None:
-        labels.add("shutdown_while_" + state_at_shutdown)
+    for u in units:
+        if u.env.max_select_depth > 1 and not any(c == "C40.concurrent_selects" for c, _ in problems):
+            u.env.problem("C40.concurrent_selects", {"depth": u.env.max_select_depth})
+        st_ = u.state_at_shutdown
+        if st_ in ("select", "select_enter"):
+            labels.add("shutdown_while_in_select")
+        elif st_ == "cond_wait":
+            labels.add("shutdown_while_cond_wait")
+        elif st_ == "none":
+            labels.add("shutdown_before_thread_start")
+        elif st_ is not None:
+            labels.add("shutdown_while_" + st_)
     if sched.pos >= 3:
         labels.add("schedule_choices_ge3")
     nontrivial = bool(labels & {"switches_ge3_between_change_and_select", "shutdown_while_in_select", "shutdown_while_cond_wait"})
     ctx.note(case, labels, nontrivial)
-    if env.problems:
-        clause, detail = env.problems[0]
-        detail = dict(detail, all_clauses=sorted({c for c, _ in env.problems}))
+    if problems:
+        clause, detail = problems[0]
+        detail = dict(detail, all_clauses=sorted({c for c, _ in problems}))
         ctx.fail(clause, detail)
 
 
@@ -678,6 +807,7 @@ def _w(strategy, n):
 
 _op = st.one_of(
     *_w(st.tuples(st.just("run")), 3),
+    st.tuples(st.just("park")),
     *_w(st.tuples(st.just("add_reader"), _fd), 3),
     *_w(st.tuples(st.just("ready"), _fd), 3),
     st.tuples(st.just("add_writer"), _fd),
@@ -770,7 +900,83 @@ _early_close_case_s = st.fixed_dictionaries({
     "oneshot": st.just([]),
     "run_loop_after_close": st.just(True),
 })
-sched_case_s = st.one_of(*_w(_general_case_s, 6), _early_close_case_s, _cross_case())
+_instance_spec = st.fixed_dictionaries({
+    "program": st.lists(_op, min_size=1, max_size=9),
+    "start_first": st.booleans(),
+    "shutdown": st.sampled_from(["close", "close", "aclose"]),
+    "oneshot": st.lists(_fd, max_size=1, unique=True),
+    "cross": st.just([]),
+    "run_loop_after_close": st.booleans(),
+})
+
+
+@st.composite
+def _two_instance_case(draw):
+    """Two SelectorThread instances alive at once: their programs are interleaved by generated choices on
+    the same loop thread (the actor), each is shut down where its own program says `close` (while the
+    other one is still alive) or after the common fair completion, in either order.  Every clause is
+    evaluated per instance, exactly as for a single one."""
+    first, second = draw(_instance_spec), draw(_instance_spec)
+    case = dict(first)
+    case.update({
+        "second": second,
+        "interleave": draw(st.lists(st.integers(0, 1), max_size=20)),
+        "close_order": draw(st.sampled_from(["forward", "reversed"])),
+        "tail_policy": draw(st.sampled_from(["stay", "switch"])),
+        "schedule": draw(st.lists(st.integers(0, 2), max_size=80)),
+    })
+    return case
+
+
+@st.composite
+def _two_instance_parked_case(draw):
+    """Aimed at state shared between instances: both selector threads exist and have settled into select;
+    then, while the loop is idle (no callback runs), a registration change on each instance wakes its
+    thread, which reports and parks waiting for the next snapshot — both threads are parked at the same
+    time, in either order.  What follows is meant for ONE of them: its close(), or its pending callback
+    (new snapshot) followed by readiness that must still be dispatched."""
+    runs = lambda lo, hi: [("run",)] * draw(st.integers(lo, hi))  # noqa: E731
+    fds = [draw(_fd), draw(_fd)]
+    first_parked = draw(st.integers(0, 1))
+    order = [first_parked, 1 - first_parked]
+    target = draw(st.integers(0, 1))  # the instance the next wake-up is meant for
+    progs = [[], []]
+    seq = []  # which instance performs the next op
+    for i in (0, 1):
+        n = draw(st.integers(2, 3))
+        progs[i] += [("run",)] * n
+        seq += [i] * n
+    progs[0].append(("park",))
+    seq.append(0)
+    for i in order:
+        progs[i] += [("add_reader", fds[i]), ("park",)]
+        seq += [i, i]
+    if draw(st.booleans()):
+        progs[target].append(("close",))
+        seq.append(target)
+    else:
+        tail = [("run",), ("park",), ("ready", fds[target])] + runs(0, 2)
+        progs[target] += tail
+        seq += [target] * len(tail)
+    for i in (0, 1):
+        extra = draw(st.lists(_op, max_size=2))
+        progs[i] += extra
+        seq += [i] * len(extra)
+    spec = lambda i: {"program": progs[i], "start_first": True, "shutdown": draw(st.sampled_from(["close", "close", "aclose"])),  # noqa: E731
+                      "oneshot": [], "cross": [], "run_loop_after_close": draw(st.booleans())}
+    case = spec(0)
+    case.update({
+        "second": spec(1),
+        "interleave": seq,
+        "close_order": draw(st.sampled_from(["forward", "reversed"])),
+        "tail_policy": draw(st.sampled_from(["stay", "switch"])),
+        "schedule": draw(st.lists(st.integers(0, 2), max_size=8)),
+    })
+    return case
+
+
+sched_case_s = st.one_of(*_w(_general_case_s, 5), _early_close_case_s, _cross_case(), _two_instance_case(),
+                         _two_instance_parked_case())
 
 _smoke_op = st.one_of(
     st.tuples(st.just("add"), _fd),
